@@ -84,6 +84,31 @@ pub fn group_parent_table(ast: &Node) -> Vec<usize> {
 /// structural checks on the Match entries of analyze (oracle-free): returns a description of the
 /// first problem
 pub fn analyze_structure(ast: &Node, input: &[char], entries: &[AEntry]) -> Option<String> {
+    analyze_structure_at(ast, input, entries).map(|x| x.0)
+}
+
+/// as analyze_structure, with the index of the Match entry the problem was found in
+pub fn analyze_structure_at(ast: &Node, input: &[char], entries: &[AEntry]) -> Option<(String, usize)> {
+    let mut mi = 0usize;
+    let mut upto = 0usize;
+    // re-run the check on growing prefixes of the entry list to locate the entry (cheap: entry lists are short)
+    let whole = analyze_structure_inner(ast, input, entries)?;
+    for (k, e) in entries.iter().enumerate() {
+        if matches!(e, AEntry::Match(_)) {
+            let prefix = &entries[..=k];
+            let covered: usize = prefix.iter().map(|x| x.text().chars().count()).sum();
+            if analyze_structure_inner(ast, &input[..covered.min(input.len())], prefix).is_some() {
+                return Some((whole, mi));
+            }
+            mi += 1;
+        }
+        upto = k;
+    }
+    let _ = upto;
+    Some((whole, mi.saturating_sub(1)))
+}
+
+fn analyze_structure_inner(ast: &Node, input: &[char], entries: &[AEntry]) -> Option<String> {
     let parents = group_parent_table(ast);
     let ng = parents.len() - 1;
     let mut pos = 0usize;
@@ -373,8 +398,20 @@ fn ref_check_inner(c: &Case, obs: &mut Obs, w: Wants) -> Result<Outcome, Outcome
         }
         if w.analyze {
             if let Some(entries) = analyze_entries {
-                if let Some(p) = analyze_structure(&ast, &input, &entries) {
-                    return Ok(Outcome::Violated(vec![Finding::new("analyze_structure", p, "well-nested group entries that concatenate to the input")]));
+                if let Some((p, at)) = analyze_structure_at(&ast, &input, &entries) {
+                    // a misplaced *empty* group is the signature of a recorded finding about groups that
+                    // took no part in the match; if the reference says this group did take part (with
+                    // an empty capture), it is something else
+                    let mut kind = "analyze_structure";
+                    if let Some(rest) = p.strip_prefix("empty group ") {
+                        let g: usize = rest.split(' ').next().and_then(|x| x.parse().ok()).unwrap_or(0);
+                        if strict && readings.len() == 1 && at < ref_scans[0].len() && g >= 1 {
+                            if let Some(Some(_)) = ref_scans[0][at].2.get(g) {
+                                kind = "analyze_structure_of_participating_group";
+                            }
+                        }
+                    }
+                    return Ok(Outcome::Violated(vec![Finding::new(kind, p, "well-nested group entries that concatenate to the input")]));
                 }
                 // analyze's group texts agree with replace's $N; presence/absence follows the reference
                 let mut mi = 0;
